@@ -103,6 +103,7 @@ pub fn run(run: &mut Run) -> PResult {
         }
     }
     run.generator("all pairs of deck cards", "exhaustive", Some(2704), n, n - 52, "non-trivial = pairs of different cards; integer comparison vs (rank, suit) lexicographic; blank below all");
+    count_soak(run, "sorting six- and seven-slot hands of real cards (and a few other hands)", (1 << 25) + (1 << 12), &soak_step)?;
     // E: small alphabet, all tuples
     {
         let a = card::DECK;
@@ -177,11 +178,34 @@ pub fn run(run: &mut Run) -> PResult {
 }
 
 pub fn check_case(clause: &str, case: &Value) -> Result<(), String> {
-    if clause.ends_with(".after_disturbance") || clause.ends_with(".concurrent") || clause.ends_with(".concurrent_cold_start") {
+    if clause.ends_with(".soak") {
+        return replay_soak(case, &soak_step);
+    }
+    if clause.ends_with(".after_disturbance") || clause.ends_with(".concurrent") || clause.ends_with(".concurrent_cold_start") || clause.ends_with(".after_repetition") {
         return replay_after_disturbance(case, check_case);
     }
     match clause {
         "C11.order" => order_clause(engine::parse_word(&case["a"])?, engine::parse_word(&case["b"])?),
         _ => sort_clause(&engine::parse_words(&case["words"])?),
     }
+}
+
+/// soak step n: a hand derived from n, sorted, compared with the reference arrangement
+pub fn soak_step(n: u64) -> Result<(), String> {
+    let d = card::DECK;
+    let k = (n % 97) as usize;
+    let mut ws: Vec<u32> = (0..if n % 2 == 0 { 7 } else { 6 }).map(|i| d[(k * 3 + i * (1 + (n as usize >> 7) % 7) * 5 + (n as usize >> 3) % 11) % 52]).collect();
+    if n % 1024 == 5 {
+        ws[0] = 0;
+    }
+    if n % 4096 == 9 {
+        ws[1] = ws[2] | card::QUADS;
+    }
+    let got: Vec<u32> = if ws.len() == 7 { Seven::from(arr::<7>(&ws).unwrap()).sort().to_arr().to_vec() } else { Six::from(arr::<6>(&ws).unwrap()).sort().to_arr().to_vec() };
+    let mut want = ws.clone();
+    want.sort_unstable_by(|a, b| b.cmp(a));
+    if got != want {
+        return Err(format!("sort on [{}] gave [{}], expected [{}]", card::render_hand(&ws), card::render_hand(&got), card::render_hand(&want)));
+    }
+    Ok(())
 }
